@@ -205,6 +205,9 @@ func c01Run(r *tr.Run, cs c01Case) (injected int) {
 		mk := func(tin string) message.HandlerFunc {
 			return func(msg *message.Message) ([]*message.Message, error) {
 				x := msg.UUID
+				if err := msg.Context().Err(); err != nil {
+					return nil, err // stages honour the context of the message they are given (a delivery arrives with a live one)
+				}
 				msg.Metadata.Set("seen-by", fmt.Sprint(st)) // stages annotate what they received (as the correlation-id middleware does)
 				mu.Lock()
 				hcalls[st]++
@@ -306,6 +309,10 @@ func c01Run(r *tr.Run, cs c01Case) (injected int) {
 			}
 			err := gc.Publish(tp, src)
 			_ = err
+			// Publish has returned: the object is the source's again, and it recycles it
+			src.UUID = "recycled-" + x
+			src.Payload = []byte("recycled")
+			src.Metadata = message.Metadata{"recycled": "1"}
 		}()
 	}
 	if cs.Taps > 0 {
